@@ -116,7 +116,7 @@ func NewReq9(a0 string) Req9 { return Req9{Name: a0} }
 
 
 def _f(names, gotype, ptr=False, alias=None):
-    return {"names": names, "gotype": gotype, "ptr": ptr, "alias": alias, "json": None}
+    return {"names": names, "gotype": gotype, "ptr": ptr, "alias": alias, "json": None, "tagpre": "", "tagpost": ""}
 
 
 WRUN_PKG = {"name": "wrun", "qpkg": None, "ifaces": [],
